@@ -48,14 +48,34 @@ def enc_tok(t):
     if k == "TZ":
         return f"TZ:{hx(t['name'])}:{t['off']}"
     if k == "F":
-        return "F"
+        f = t["f"]
+        if f in ("TEXT", "DYNAMIC_TYPE"):
+            extra = "-" if t.get("extra") is None else hx(t["extra"])
+        elif f == "GROUP":
+            extra = ".".join(hx(x) for x in t["items"]) or "-"
+        elif f == "TYPE_GROUP":
+            extra = ".".join(hx(x) for x in t["types"]) or "-"
+        else:
+            extra = "-"
+        return f"F:{f}:{hx(t['name'])}:{extra}"
     return None
+
+
+def enc_pattern(toks):
+    """lexed pattern (harness `lex`) -> request encoding of one pattern; None if unsupported"""
+    parts = []
+    for ti in toks:
+        tok = "-" if ti["tok"] is None else enc_tok(ti["tok"])
+        if tok is None:
+            return None
+        parts.append(f"{ti['s']},{ti['e']},1,{hx(ti['text'])},{tok}")
+    return " ".join(parts)
 
 
 def enc_info_in(ti):
     """lexed token info (harness `lex`) -> request encoding (with original text)"""
     tok = "-" if ti["tok"] is None else enc_tok(ti["tok"])
-    if tok is None or tok == "F":
+    if tok is None or tok.startswith("F"):
         return None
     return f"{ti['s']},{ti['e']},1,{hx(ti['text'])},{tok}"
 
